@@ -376,3 +376,111 @@ Definition grant_ok (tabs : list (pystr * impexp_class)) (fresh : pystr -> field
 Definition chk_grant_dump (tabs : list (pystr * impexp_class)) (c : fields * res fields) : bool :=
   let '(g, r) := c in
   match grant_dump tabs g with Unmodelled => true | m => res_fields_eqb m r end.
+
+(* ---- sharing inside the exported state (the session database as keys -> references) ----
+   The live database files OBJECTS under keys; two keys can lead to one object: the mint helpers file a grant a second
+   time under its (encrypted) session id, `set(unpack_session_key(session_id), grant)`.  DLDict.dump writes one document
+   per KEY and DLDict.load builds one NEW object per key: the format has no way to say "the same object as under ...".
+   Contents of an object are abstract here (a pyval: what the object-level theorems above carry across). *)
+Definition loc := nat.
+Record sdb := { sd_keys : list (pystr * loc); sd_heap : list (loc * pyval); sd_next : loc }.
+
+Fixpoint nassoc {V} (l : loc) (h : list (loc * V)) : option V :=
+  match h with [] => None | (l', v) :: r => if Nat.eqb l l' then Some v else nassoc l r end.
+
+Definition sd_loc (s : sdb) (k : pystr) : option loc := assoc k (sd_keys s).
+Definition sd_deref (s : sdb) (l : loc) : pyval := match nassoc l (sd_heap s) with Some v => v | None => VNone end.
+(* what a reader that goes through key k finds *)
+Definition sd_view (s : sdb) (k : pystr) : option pyval := option_map (sd_deref s) (sd_loc s k).
+Definition same_object (s : sdb) (k1 k2 : pystr) : bool :=
+  match sd_loc s k1, sd_loc s k2 with Some a, Some b => Nat.eqb a b | _, _ => false end.
+
+(* DLDict.dump / DLDict.load *)
+Definition sd_dump (s : sdb) : list (pystr * pyval) := map (fun p => (fst p, sd_deref s (snd p))) (sd_keys s).
+Fixpoint sd_load_from (n : loc) (d : list (pystr * pyval)) : sdb :=
+  match d with
+  | [] => {| sd_keys := []; sd_heap := []; sd_next := n |}
+  | (k, v) :: r => let s := sd_load_from (S n) r in
+                   {| sd_keys := (k, n) :: sd_keys s; sd_heap := (n, v) :: sd_heap s; sd_next := sd_next s |}
+  end.
+Definition sd_load (d : list (pystr * pyval)) : sdb := sd_load_from O d.
+
+Definition kdel {V} (k : pystr) (d : list (pystr * V)) : list (pystr * V) := filter (fun p => negb (str_eqb k (fst p))) d.
+
+(* operations on the database: a change of the object filed under k, IN PLACE (revoke, register usage, mint: the new
+   contents v); a read through k; filing the object of k a second time under k2; a new object under k; removal of k *)
+Inductive sop := SUpd (k : pystr) (v : pyval) | SGet (k : pystr) | SFile (k k2 : pystr) | SNew (k : pystr) (v : pyval) | SDel (k : pystr).
+
+Definition sd_step (s : sdb) (o : sop) : sdb * option pyval :=
+  match o with
+  | SGet k => (s, sd_view s k)
+  | SUpd k v => match sd_loc s k with
+                | Some l => ({| sd_keys := sd_keys s; sd_heap := (l, v) :: sd_heap s; sd_next := sd_next s |}, None)
+                | None => (s, None)
+                end
+  | SFile k k2 => match sd_loc s k with
+                  | Some l => ({| sd_keys := aset k2 l (sd_keys s); sd_heap := sd_heap s; sd_next := sd_next s |}, None)
+                  | None => (s, None)
+                  end
+  | SNew k v => ({| sd_keys := aset k (sd_next s) (sd_keys s); sd_heap := (sd_next s, v) :: sd_heap s; sd_next := S (sd_next s) |}, None)
+  | SDel k => ({| sd_keys := kdel k (sd_keys s); sd_heap := sd_heap s; sd_next := sd_next s |}, None)
+  end.
+Fixpoint sd_run (s : sdb) (ops : list sop) : list (option pyval) :=
+  match ops with [] => [] | o :: r => let '(s', x) := sd_step s o in x :: sd_run s' r end.
+Fixpoint sd_exec (s : sdb) (ops : list sop) : sdb :=
+  match ops with [] => s | o :: r => sd_exec (fst (sd_step s o)) r end.
+
+(* the keys the library's readers and writers use (K: the branch keys user / user;;client / user;;client;;grant that
+   `decrypt_branch_id` yields); a second filing goes under a key outside K *)
+Definition op_canon (K : pystr -> bool) (o : sop) : bool :=
+  match o with
+  | SUpd k _ | SGet k | SNew k _ | SDel k => K k
+  | SFile k k2 => K k && negb (K k2)
+  end.
+(* no two keys of K lead to one object, and references stay below the allocation counter *)
+Definition sd_canon (K : pystr -> bool) (s : sdb) : Prop :=
+  (forall k1 k2 l, K k1 = true -> K k2 = true -> sd_loc s k1 = Some l -> sd_loc s k2 = Some l -> k1 = k2)
+  /\ (forall k l, sd_loc s k = Some l -> (l < sd_next s)%nat).
+
+(* a look-up by session id: `GrantManager.__getitem__` decrypts the id and walks the tree (tree = true); a reader that
+   first tries the entry filed under the id itself (tree = false) is what the format cannot support *)
+Definition sd_lookup (tree : bool) (s : sdb) (sidkey treekey : pystr) : option pyval :=
+  if tree then sd_view s treekey
+  else match sd_view s sidkey with Some v => Some v | None => sd_view s treekey end.
+
+(* ---- correspondence: (database at the export as key -> object number, contents per object number, allocation counter;
+        later steps = operations + the views of all listed keys observed afterwards on the original and on the restored
+        provider + what session_manager[sid] hands out on each, for (sid key, tree key) pairs) ---- *)
+Definition views (s : sdb) (ks : list pystr) : list (option pyval) := map (sd_view s) ks.
+Definition opt_pyval_eqb (a b : option pyval) : bool :=
+  match a, b with Some x, Some y => pyval_eqb x y | None, None => true | _, _ => false end.
+Fixpoint list_eqb {A} (e : A -> A -> bool) (a b : list A) : bool :=
+  match a, b with [] , [] => true | x :: a', y :: b' => e x y && list_eqb e a' b' | _, _ => false end.
+Definition share_step := (list sop * bool * list pystr * list (option pyval) * list (option pyval)
+                          * list (pystr * pystr) * list (option pyval) * list (option pyval))%type.
+(* (operations of the step, is the restored twin exported and imported once more BEFORE the step, keys to look at,
+    their views on the original / on the twin, (sid key, tree key) pairs, what session_manager[sid] hands out on each) *)
+Fixpoint chk_share_steps (a b : sdb) (steps : list share_step) : bool :=
+  match steps with
+  | [] => true
+  | (ops, reload, ks, va, vb, sids, la, lb) :: r =>
+      let a' := sd_exec a ops in
+      let b' := sd_exec (if reload then sd_load (sd_dump b) else b) ops in
+      list_eqb opt_pyval_eqb (views a' ks) va && list_eqb opt_pyval_eqb (views b' ks) vb
+      && list_eqb opt_pyval_eqb (map (fun p => sd_lookup true a' (fst p) (snd p)) sids) la
+      && list_eqb opt_pyval_eqb (map (fun p => sd_lookup true b' (fst p) (snd p)) sids) lb
+      && chk_share_steps a' b' r
+  end.
+Definition chk_share (c : sdb * list share_step) : bool :=
+  let '(s, steps) := c in chk_share_steps s (sd_load (sd_dump s)) steps.
+(* diagnosis: the model's views / look-ups after every step, original and twin *)
+Fixpoint diag_share_steps (a b : sdb) (steps : list share_step) :=
+  match steps with
+  | [] => []
+  | (ops, reload, ks, _, _, sids, _, _) :: r =>
+      let a' := sd_exec a ops in
+      let b' := sd_exec (if reload then sd_load (sd_dump b) else b) ops in
+      (views a' ks, views b' ks, map (fun p => sd_lookup true b' (fst p) (snd p)) sids) :: diag_share_steps a' b' r
+  end.
+Definition diag_share (c : sdb * list share_step) :=
+  let '(s, steps) := c in diag_share_steps s (sd_load (sd_dump s)) steps.
